@@ -439,6 +439,23 @@ func c17RunTuples(c c17Case) eng.Result {
 					report("equal-length", fmt.Sprintf("EqualVals(%s,%s) = true", lbl(a), lbl(b)))
 				}
 				res.Evals++
+				// and the order is still lexicographic: a tuple that is the beginning of another is first
+				wantLen := 0
+				for i := 0; i < len(a) && i < len(b) && wantLen == 0; i++ {
+					wantLen = refCmp(a[i], b[i])
+				}
+				if wantLen == 0 {
+					wantLen = sign(len(a) - len(b))
+				}
+				var gotLen int
+				fr, msg, pan := eng.Recover(func() { gotLen = sign(val.CompareVals(toVals(a), toVals(b))) })
+				res.Evals++
+				res.Nontriv++
+				if pan {
+					report("different-lengths/panic:"+fr, fmt.Sprintf("CompareVals(%s,%s) panics: %s", lbl(a), lbl(b), msg))
+				} else if gotLen != wantLen {
+					report("different-lengths/lexicographic", fmt.Sprintf("CompareVals(%s,%s) has sign %d, lexicographic order is %d", lbl(a), lbl(b), gotLen, wantLen))
+				}
 				continue
 			}
 			want := 0
